@@ -6,8 +6,9 @@ Streams
   site  : generated projects (shape x options x static pages x how the project / output directory is
           reached: directly, through symbolic links, through `..` x doc comments of one / several
           paragraphs, with `summary:` metadata, list-only x user icon of any image type, MathJax configuration,
-          project-wide / per-page `copy_subdir` directories, plain files and relative links in static pages;
-          harness/c09_gen.py) -> real
+          project-wide / per-page `copy_subdir` directories, plain files and relative links in static pages x directory / page
+          names that repeat at different depths of the page tree or equal FORD's own output directories x footnotes in doc
+          comments, static pages and the front page text; harness/c09_gen.py) -> real
           `ford` run in-process ->
           (a) correspondence: for every entity object of the project, `get_dir()` / `get_url()`
               equal the model's on the same (class, obj, ident, parent chain); the list pages
@@ -27,7 +28,11 @@ Streams
               the tables regenerated from all templates and Documentation.writeout) gives for the run's real settings
               dictionary; every file below page/ equals what the model of PagetreePage.writeout (`pageWrites`, regenerated
               loop guards) writes for the real PageNode objects (location, stem, copy_subdir, files) and the page directory
-              on disk; the alias values handed to the real Markdown object equal the regenerated alias table;
+              on disk; the alias values handed to the real Markdown object equal the regenerated alias table; (round 5) the
+              footnotes listed below / referred to in every converted doc comment and `summary:` (hook on FortranBase.markdown)
+              equal the model's converter (`Footnotes.convertAll` with the probed reset sites) fed with the same sequence of texts;
+              (micro stream) sequences of calls of the registered `relurl` filter, one text, pages whose directories share names,
+              equal the model's filter behind a cache with the probed reuse key (`Memo.runCached`);
           (b) property oracle (harness/c09_links.py, defined from the statement only): every
               href/src/xlink:href/action and search-index url is external or relative, its file
               exists under the output directory, its fragment is an id of that file; then the
@@ -41,6 +46,7 @@ import os
 import random
 import re
 import shutil
+import textwrap
 import time
 import traceback
 from concurrent.futures import ProcessPoolExecutor
@@ -117,8 +123,10 @@ def micro_stream(drv, rng, n, rep):
     # `normalise_path` and `relative_url` of the real code on a real file system with symbolic links, against the
     # model with the file system's `realpath` handed over at the points asked for
     import tempfile
-    from ford.output import relative_url
+    import ford.output as _fo
     from ford.utils import normalise_path
+
+    relative_url = _fo.env.filters["relurl"]   # the callable the templates use, whatever its name in the module
 
     tmp = Path(os.path.realpath(tempfile.mkdtemp(prefix="ford-c09-fs-")))
     try:
@@ -148,6 +156,28 @@ def micro_stream(drv, rng, n, rep):
                     m = re.fullmatch(r"<a href='([^']*)'>x</a>", res)
                     reqs.append(["c09.relurl", href, os.path.realpath(href), str(page_url.parent)])
                     exp.append(["unchanged" if m and m.group(1) == href else (m.group(1) if m else res)])
+        # sequences of calls of the registered filter, same text, pages whose directories / files share a name at different
+        # places of the tree - against the model's filter behind a cache with the regenerated key (`c09.memo`)
+        import ford.output as fo
+        filt = fo.env.filters.get("relurl", relative_url)
+        root = tmp / "real" / "doc"
+        names = ["examples", "dev", "module", "page", "doc", "sub"]
+        for q in range(max(12, n // 100)):
+            tgt = f"{rng.choice(['proc', 'page/' + rng.choice(names), 'module'])}/t{q}x{rng.randrange(10 ** 6)}.html"
+            href = f"{root}/{tgt}"
+            seq = []
+            for _ in range(rng.randint(2, 5)):
+                depth = rng.randint(0, 3)
+                d = "/".join(["page"] * (depth > 0) + [rng.choice(names) for _ in range(max(0, depth - 1))])
+                seq.append((d + "/" if d else "") + rng.choice(["index.html", "first.html"]))
+            req, impl = ["c09.memo"], []
+            for pg in seq:
+                res = str(filt(f"<a href='{href}'>x</a>", root / pg))
+                m = re.fullmatch(r"<a href='([^']*)'>x</a>", res)
+                impl.append("unchanged" if m and m.group(1) == href else (m.group(1) if m else res))
+                req += [href, str(root / pg)]
+            reqs.append(req)
+            exp.append(["ok"] + impl)
     finally:
         shutil.rmtree(tmp, ignore_errors=True)
     got = drv.batch(reqs)
@@ -397,6 +427,17 @@ def classify(fail, ctx):
         rec = fail["read_more_of"]
         if not rec["has_url"] and (rec["explicit"] or not rec["has_para"]) and not ctx.get("link_needs_url"):
             return "C09-read-more-link-without-url"
+        return None
+    if "fragment" in why and not path and frag.startswith("fn:") and fail.get("fn_ref") and fail.get("q") == '"' \
+            and frag[len("fn:"):] in ctx.get("fn_first", ()):
+        # the reference of a footnote that sits in the first paragraph of a doc comment: the summary (first paragraph only)
+        # is printed where the list of footnotes of the documentation is not
+        return "C09-footnote-ref-in-summary"
+    if fail.get("fn_leak_of") is not None and "fragment" in why and not path:
+        site = fail["fn_leak_of"]["site"]
+        unreset = [x for x in site.split("/") if x not in ctx.get("md_resets", [])]
+        if unreset:
+            return "C09-footnotes-leak-into-conversions-without-reset"
         return None
     if feat["localtype"] and page.startswith("proc/") and fail.get("in_localtype_doc"):
         if why == "absolute path" and url.startswith(ctx["out"] + "/"):
@@ -669,12 +710,21 @@ def run_site(args):
                              "pages under the project-wide copy_subdir": sum(1 for n in res["page_nodes"] if n["copy_subdir"] and not n["own"]),
                              "copy_subdir directories next to their page": sum(len(n["items"]) for n in res["page_nodes"]),
                              "plain files in page directories": sum(len(n["files"]) for n in res["page_nodes"])}
+        pdirs = [os.path.dirname(f) for f in site.files if f.startswith("page/") and f.endswith(".html")]
+        pnames = {}
+        for dname in set(pdirs):
+            pnames.setdefault(os.path.basename(dname), set()).add(dname)
+        res["page_tree_hist"] = {"sites with two page directories of the same name": int(any(len(v) > 1 for v in pnames.values())),
+                                 "sites with a page directory named like a directory of the output": int(any(
+                                     x in pnames for x in ("module", "lists", "proc", "doc", "media", "src") ) or len(pnames.get("page", ())) > 1),
+                                 "sites with static pages": int(bool(pdirs))}
         # ---------- property oracle
         fails = site.failures()
         ctx = {"out": str(out), "cwd": cwd, "opts": P["opts"], "shape": shape or c09_gen.shape_counts(P),
                "feat": project_features(P), "hidden": hidden_names(P), "functions": function_names(P),
                "file_link_targets": file_link_targets(R), "hidden_iface": hidden_interface_pages(P), "link_needs_url": _LAST.get("link_needs_url", False),
-               "abs_copy_items": res["abs_copy_items"]}
+               "abs_copy_items": res["abs_copy_items"], "fn_first": set(R.get("fn_first", [])),
+               "md_resets": _LAST.get("md_resets", [])}
         # ---------- what FortranBase.markdown did for every entity (summary rule, "Read more" link)
         md = _LAST.get("md", [])
         if _LAST.get("md_exc"):
@@ -691,6 +741,24 @@ def run_site(args):
         rest = [m for m in md if m["emitted"] and m not in first]
         res["md"] = [{x: m[x] for x in ("cls", "name", "has_url", "url", "explicit", "summary_body", "emitted", "href",
                                          "has_para", "para", "doc")} for m in (first[:80] + rest[:40])]
+        # the conversions of the run in order, as far as footnotes go: the front page text, then per entity its doc comment
+        # and (when it has `summary:` metadata) the summary - what each defines / refers to in the source, and the
+        # footnotes listed / referred to in the converted text.  Only kept when a footnote occurs anywhere.
+        res["fn_seq"] = None
+        if any(m["fn_defs"] or m["fn_doc"] or m["fn_summary"] for m in md) or FN_DEF_RE.search(R["text"]):
+            seq = [{"site": "projectDocs", "blank": not R["text"].strip(), "defs": FN_DEF_RE.findall(R["text"]), "refs": FN_REF_RE.findall(R["text"]), "notes": None, "ids": None, "who": "front page text"}]
+            for m in md:
+                seq.append({"site": "entityDoc", "blank": m["fn_blank"], "defs": m["fn_defs"], "refs": m["fn_refs"], "notes": m["fn_doc"], "ids": m["fn_doc_refs"],
+                            "who": f"{m['cls']} {m['name']}"})
+                if m["explicit"]:
+                    seq.append({"site": "entitySummary", "blank": False, "defs": [], "refs": [], "notes": m["fn_summary"], "ids": [],
+                                "who": f"summary of {m['cls']} {m['name']}"})
+            res["fn_seq"] = seq
+        res["fn_hist"] = {"doc comments with a footnote": sum(1 for m in md if m["fn_defs"]),
+                          "doc comments with a footnote and summary metadata": sum(1 for m in md if m["fn_defs"] and m["explicit"]),
+                          "footnote referred to in the first paragraph": len(R.get("fn_first", [])),
+                          "converted texts that list a footnote they do not define": sum(1 for m in md if set(m["fn_doc"]) - set(m["fn_defs"]))
+                          + sum(1 for m in md if m["explicit"] and m["fn_summary"])}
         nourl_links = [m for m in md if m["emitted"] and not m["has_url"]]
         texts = {}
         fulltext = {}
@@ -723,6 +791,31 @@ def run_site(args):
                         if txt.count("\n", 0, i + len(m["summary_body"])) + 1 == ln and m["href"] == f["url"]:
                             f["read_more_of"] = {x: m[x] for x in ("cls", "name", "has_url", "explicit", "has_para")}
                         i = txt.find(m["summary"], i + 1)
+            # a footnote link: the reference `<a class="footnote-ref" href="#fn:L">` in a text, or the back-link
+            # `<a class="footnote-backref" href="#fnref:L">` of the list of footnotes below a converted text
+            f["fn_ref"] = re.search(r'<a class="footnote-ref" href="' + re.escape(f["url"]) + '"', ctx3) is not None
+            f["fn_leak_of"] = None
+            if f["url"].startswith("#fnref:") and f["tag"] == "a" and lines and \
+                    re.search(r'<a class="footnote-backref" href="' + re.escape(f["url"]) + '"', ctx3):
+                lab = f["url"][len("#fnref:"):]
+                if pg not in fulltext:
+                    fulltext[pg] = "\n".join(lines)
+                txt = fulltext[pg]
+                # (a) inside the verbatim summary of an entity whose doc comment has `summary:` metadata and defines L:
+                #     the metadata is converted right after the documentation, by the same converter, without a reset
+                for m in md:
+                    if f["fn_leak_of"] is None and m["explicit"] and lab in m["fn_defs"] and lab in m["fn_summary"]:
+                        i = txt.find(m["summary"])
+                        while i >= 0 and f["fn_leak_of"] is None:
+                            l0 = txt.count("\n", 0, i) + 1
+                            if l0 <= ln <= l0 + m["summary"].count("\n"):
+                                f["fn_leak_of"] = {"site": "entitySummary", "cls": m["cls"], "name": m["name"]}
+                            i = txt.find(m["summary"], i + 1)
+                # (b) on the front page, below the project summary / the author description, which `main` converts after
+                #     all doc comments without a reset: the footnotes of the entity that was converted last
+                if f["fn_leak_of"] is None and pg == "index.html" and md and lab in md[-1]["fn_defs"] \
+                        and (P["opts"].get("summary") or P["opts"].get("author")):
+                    f["fn_leak_of"] = {"site": "projectSummary/authorDescription", "cls": md[-1]["cls"], "name": md[-1]["name"]}
             f["class"] = classify(f, ctx)
         res["fails"] = fails[:60]
         res["n_fails"] = len(fails)
@@ -748,6 +841,10 @@ def run_site(args):
 _LAST: dict = {}
 
 
+FN_DEF_RE = re.compile(r"^[ ]{0,3}\[\^([^\]\s]+)\]:", re.M)
+FN_REF_RE = re.compile(r"\[\^([^\]\s]+)\](?!:)")
+FN_REFID_RE = re.compile(r'<sup id="fnref:([^"]+)"')
+FN_BACKREF_RE = re.compile(r'class="footnote-backref" href="#fnref:([^"]+)"')
 READ_MORE_RE = re.compile(r'<a href="([^"]*)" class="pull-right"><emph>Read more&hellip;</emph></a>$')
 
 
@@ -763,6 +860,11 @@ def _install_hook():
 
     def markdown(self, md, *a, **kw):
         explicit = getattr(getattr(self, "meta", None), "summary", None) is not None
+        try:
+            src = textwrap.dedent("\n".join(getattr(self, "doc_list", None) or []))
+            fn_defs, fn_refs, fn_blank = FN_DEF_RE.findall(src), FN_REF_RE.findall(src), not src.strip()
+        except Exception:  # noqa
+            fn_defs, fn_refs, fn_blank = [], [], True
         r = orig_md(self, md, *a, **kw)
         try:
             recs = _LAST.setdefault("md", [])
@@ -775,7 +877,11 @@ def _install_hook():
                              "url": url if url is not None else "none", "explicit": explicit,
                              "summary_body": summary[:m.start()] if m else summary, "emitted": m is not None,
                              "href": m.group(1) if m else "", "has_para": para is not None,
-                             "para": para.group() if para else "", "doc": self.doc, "summary": summary})
+                             "para": para.group() if para else "", "doc": self.doc, "summary": summary,
+                             # footnotes: labels defined in the doc comment; labels listed below the converted
+                             # documentation / the converted summary (each with a back-link `#fnref:<label>`)
+                             "fn_defs": fn_defs, "fn_refs": fn_refs, "fn_blank": fn_blank, "fn_doc": FN_BACKREF_RE.findall(self.doc),
+                             "fn_doc_refs": FN_REFID_RE.findall(self.doc), "fn_summary": FN_BACKREF_RE.findall(summary)})
         except Exception as e:  # noqa
             _LAST.setdefault("md_exc", []).append(f"{type(e).__name__}: {e}")
         return r
@@ -809,9 +915,10 @@ def _install_hook():
     fp.Project._c09_hooked = True
 
 
-def _worker_init():
+def _worker_init(md_resets=None):
     common.import_ford()
     _install_hook()
+    _LAST["md_resets"] = list(md_resets or [])
     try:
         from translate import c09 as tr
         _LAST["link_needs_url"] = tr.extract_readmore(common.REPO)["link_needs_url"]
@@ -879,6 +986,27 @@ def compare_site(r, drv_answers, rep, stats):
                            f"{m['cls']} {m['name']} (case {k})",
                            {"stream": "site", "case": k, "entity": [m["cls"], m["name"]], "model": model, "impl": impl,
                             "has_url": m["has_url"], "explicit_summary": m["explicit"], "doc": m["doc"][:300]})
+    # --- footnotes: what every converted doc comment / summary lists below its text and refers to <-> the model's converter
+    #     with the probed reset sites, fed with the same sequence of texts (labels defined / referred to in the source)
+    if r.get("fn_seq") and "footnotes" in drv_answers:
+        outs = drv_answers["footnotes"][1:]
+        if len(outs) != len(r["fn_seq"]):
+            stats["bad"] += 1
+            rep.tie_broken(f"correspondence site/footnotes: the model answered {len(outs)} conversions for {len(r['fn_seq'])} (case {k})",
+                           {"stream": "site", "case": k})
+        else:
+            for c, o in zip(r["fn_seq"], outs):
+                if c["notes"] is None:
+                    continue
+                stats["footnotes"] += 1
+                notes, ids = (x.split(",") if x else [] for x in o.split("|", 1))
+                if notes != c["notes"] or sorted(ids) != sorted(c["ids"]):
+                    stats["bad"] += 1
+                    rep.tie_broken(f"correspondence site/footnotes: {c['who']} ({c['site']}): the model lists the footnotes {notes} and the "
+                                   f"references {ids}, the converted text has {c['notes']} and {c['ids']} (case {k})",
+                                   {"stream": "site", "case": k, "who": c["who"], "site": c["site"], "defs": c["defs"], "refs": c["refs"],
+                                    "model": [notes, ids], "impl": [c["notes"], c["ids"]]})
+                    break
     # --- static pages: the files below <out>/page are exactly what the model of PagetreePage.writeout writes for the real
     #     PageNode objects (HTML file of every page, the files below the page's own `copy_subdir` directories, the plain
     #     files of the page directory), under the regenerated guards of the two copy loops
@@ -1076,10 +1204,22 @@ def run(tier: str, seed: int, replay: str | None = None) -> int:
         rep.tie_broken(f"PagetreePage.writeout: the `copy_subdir` loop runs `{pc[0]}`, the `files` loop `{pc[1]}`: a page's own copy_subdir "
                        f"directories / the files of a page directory are not copied for every page that links them")
     table_variants.update({"copy_subdir_loop_guard": pc[0], "page_files_loop_guard": pc[1], "asset_links_failing_check": failing_assets})
+    # ---- state that outlives one text / one page: the Markdown converter, a cache in front of the relurl filter
+    mc = drv.call("c09.mdcheck")
+    if mc[0] != "1":
+        rep.tie_broken(f"only the conversions at {mc[1] or 'no site'} start from a reset Markdown converter: the front page text, a doc "
+                       f"comment or a static page is converted by a converter that still holds the footnotes of the text before it "
+                       f"(tablesOk = false on the probed sites)")
+    if mc[2] != "1":
+        rep.tie_broken(f"the relurl filter reuses an earlier result for pages that agree in `{mc[3]}` only: a page in another directory "
+                       f"gets the relative links computed for the first one (faithful = false on the probed key)")
+    table_variants.update({"markdown_sites_starting_from_reset": mc[1].split(",") if mc[1] else [], "relurl_filter_reuse_key": mc[3]})
     labels = {"base.html": set(), "index.html": set()}
     table_mro, table_list_class, table_dir_parent, table_vis_classes = {}, {}, [], []
+    table_md_resets = []
     try:
-        ext = tr.extract()
+        ext = tr.extract_cached()
+        table_md_resets = list(ext["md_resets"])
         for tpl, label, tgt, c in ext["nav"]:
             labels[tpl].add(re.sub(r"\s+", " ", _html.unescape(label)).strip())
         table_mro = {n: ch for n, ch in ext["mro"]}
@@ -1094,15 +1234,17 @@ def run(tier: str, seed: int, replay: str | None = None) -> int:
         import json
         try:
             obj = json.loads(Path(replay).read_text())
-            replay_cases = [(c.get("seed", seed), c["case"]) for c in obj.get("cases", []) if "case" in c]
+            # (several failing links of one site share a case number: run each site once)
+            replay_cases = list(dict.fromkeys((c.get("seed", seed), c["case"]) for c in obj.get("cases", []) if "case" in c))
         except Exception as e:  # noqa
             raise common.Infra(f"cannot read replay file {replay}: {e}")
 
     hist = {"shape_kind": {}, "files": {}, "modules": {}, "programs": {}, "blockdata": {}, "procedures": {}, "types": {},
             "absinterfaces": {}, "namelists": {}, "submodules": {}, "options": {}, "links_by_page_kind": {}, "doc_link_targets": {},
-            "aborted_runs": {}, "location": {}, "doc_style": {}, "summaries": {}, "assets": {}}
+            "aborted_runs": {}, "location": {}, "doc_style": {}, "summaries": {}, "assets": {}, "footnotes": {},
+            "page_tree": {}}
     stats = {"geturl": 0, "nav_pages": 0, "bad": 0, "strlink": 0, "str_exc": 0, "list_members": 0, "readmore": 0,
-             "page_copies": 0, "page_copy_files": 0, "asset_pages": 0, "asset_files": 0, "aliases": 0}
+             "page_copies": 0, "page_copy_files": 0, "asset_pages": 0, "asset_files": 0, "aliases": 0, "footnotes": 0}
     n_links = n_internal = 0
     distinct = set()
     samples = []
@@ -1116,7 +1258,8 @@ def run(tier: str, seed: int, replay: str | None = None) -> int:
     with common.scratch_dir("ford-c09-") as d:
         jobs = [(s, k, str(d), False) for s, k in replay_cases] if replay_cases else [(seed, k, str(d), False) for k in range(n_sites)]
         results = []
-        with ProcessPoolExecutor(max_workers=min(16, os.cpu_count() or 4), initializer=_worker_init) as ex:
+        with ProcessPoolExecutor(max_workers=min(16, os.cpu_count() or 4), initializer=_worker_init,
+                                 initargs=(table_md_resets,)) as ex:
             for r in ex.map(run_site, jobs, chunksize=2):
                 results.append(r)
         _tick("site stream (ford runs)")
@@ -1156,6 +1299,12 @@ def run(tier: str, seed: int, replay: str | None = None) -> int:
                     q += [it["name"], str(len(it["files"]))] + it["files"]
                 q += [str(len(n["files"]))] + n["files"]
                 reqs.append(q)
+            if r.get("fn_seq"):
+                index.append((r["k"], "footnotes", len(reqs), 1))
+                q = ["c09.footnotes"]
+                for c in r["fn_seq"]:
+                    q += [c["site"], "1" if c["blank"] else "0", str(len(c["defs"]))] + c["defs"] + [str(len(c["refs"]))] + c["refs"]
+                reqs.append(q)
             index.append((r["k"], "readmore", len(reqs), len(r.get("md", []))))
             for m in r.get("md", []):
                 reqs.append(["c09.readmore", "1" if m["has_url"] else "0", m["url"], "1" if m["explicit"] else "0",
@@ -1181,6 +1330,10 @@ def run(tier: str, seed: int, replay: str | None = None) -> int:
                 hist["summaries"][x] = hist["summaries"].get(x, 0) + v
             for x, v in (r.get("asset_hist") or {}).items():
                 hist["assets"][x] = hist["assets"].get(x, 0) + v
+            for x, v in (r.get("fn_hist") or {}).items():
+                hist["footnotes"][x] = hist["footnotes"].get(x, 0) + v
+            for x, v in (r.get("page_tree_hist") or {}).items():
+                hist["page_tree"][x] = hist["page_tree"].get(x, 0) + v
             if r["opts"]["graph"]:
                 bump("options", f"graph_maxnodes={r['opts'].get('graph_maxnodes')}")
             if r.get("rc") != 0:
@@ -1258,14 +1411,14 @@ def run(tier: str, seed: int, replay: str | None = None) -> int:
     n_ok = sum(1 for r in results if r.get("rc") == 0)
     rep.coverage.update(
         evaluations=ev_micro + len(results) + stats["geturl"] + stats["strlink"] + stats["nav_pages"] + stats["readmore"]
-        + stats["page_copies"] + stats["asset_pages"],
+        + stats["page_copies"] + stats["asset_pages"] + stats["footnotes"],
         distinct_nontrivial=len(distinct),
         rule="a site case = generated project (shape x options x static pages x doc links) run through ford end-to-end; "
              "distinct by digest of (entity counts as FORD sees them, option combination, page tree present, how the project directory "
              "is reached, icon type / MathJax configuration / kinds of files next to the static pages); all of them reach the mechanism",
         samples=samples,
         traces_validated_against_impl=ev_micro + stats["geturl"] + stats["strlink"] + stats["nav_pages"] + stats["readmore"] + n_ok
-        + stats["page_copies"] + stats["asset_pages"],
+        + stats["page_copies"] + stats["asset_pages"] + stats["footnotes"],
         static_pages_compared_copies=stats["page_copies"], files_below_page_compared=stats["page_copy_files"],
         pages_compared_asset_links=stats["asset_pages"], asset_files_compared=stats["asset_files"],
         correspondence_disagreements=stats["bad"] + bad_micro,
@@ -1274,6 +1427,7 @@ def run(tier: str, seed: int, replay: str | None = None) -> int:
         entities_compared_get_url=stats["geturl"], pages_compared_navigation=stats["nav_pages"],
         entities_compared_str_link=stats["strlink"], entities_str_raises=stats["str_exc"],
         entities_compared_read_more=stats["readmore"], regenerated_variants=table_variants,
+        conversions_compared_footnotes=stats["footnotes"],
         list_member_classes_compared=stats["list_members"], project_lists_failing_str_check=failing_lists,
         sites_with_failing_links=oracle_fail_sites, failing_links_by_class=dict(sorted(class_counts.items())),
         variant=variant, navigation_entries_failing_check=failing_entries,
